@@ -290,7 +290,7 @@ func c13Enabled(x *scn.Exec) []mc.Event {
 	if sm == nil || sm.IsFinished() || x.Ctx["c13strip"] != nil || !sm.Data.StartingBlockHeightSet {
 		return nil
 	}
-	return []mc.Event{{Name: "strip_anchor", Dev: 1}}
+	return []mc.Event{{Name: "strip_anchor", Dev: 1, NoCrash: true}}
 }
 
 func c13Apply(x *scn.Exec, e mc.Event) bool {
